@@ -48,7 +48,6 @@ var (
 //@ func (*Parser).ParseVCLOrSnippet [C01]
 //@   requires p != nil
 //@   ensures [tree-or-error C01] err == nil ==> result != nil
-//@   assigns heap
 
 //@ func (*Parser).registerExpressionParsers [C01]
 //@   no-template
@@ -61,7 +60,7 @@ var (
 //@   no-template
 //@   safe
 //@   requires is(tk, *lexer.Lexer) && tk.(*lexer.Lexer) != nil && okL(tk.(*lexer.Lexer)) && len(tk.(*lexer.Lexer).peeks) == 0 && tk.(*lexer.Lexer).customs != nil
-//@   ensures [parser-ready] result != nil && fresh(result) && okP(result) && result.curToken != nil && result.peekToken != nil
+//@   ensures [parser-ready] result != nil && fresh(result) && result.tk == tk && okP(result) && result.curToken != nil && result.peekToken != nil
 
 // the sweep: no reachable panic anywhere in the package
 // ... and every parser method keeps the parser well-formed: same tokenizer, lexer invariants,
